@@ -3,11 +3,43 @@ package main
 import (
 	"fmt"
 	"go/ast"
+	"go/constant"
 	"go/parser"
 	"go/token"
+	"math"
 	"strconv"
 	"strings"
 )
+
+// math.Pi as the Go library spells it (src/math/const.go); go2lean reads no library source
+const mathPiText = "3.14159265358979323846264338327950288419716939937510582097494459"
+
+// an untyped integer constant used as a float32 / float64 value: exact for |c| < 2^24
+func (x *xtr) floatLit(n ast.Node, c int64) string {
+	if c >= 1<<24 || c <= -(1<<24) {
+		x.bad(n, "integer constant %d as a float (only |c| < 2^24, which float32 and float64 both hold exactly)", c)
+	}
+	if c < 0 {
+		return fmt.Sprintf("(Go.FExpr.neg (Go.FExpr.lit %d))", -c)
+	}
+	return fmt.Sprintf("(Go.FExpr.lit %d)", c)
+}
+
+// an untyped floating-point constant at float32 / float64: the bit pattern of the nearest value (what the Go
+// compiler stores), as a leaf of the expression tree
+func (x *xtr) floatConst(n ast.Node, v xval, ty *xty) string {
+	if i, ok := constant.Int64Val(constant.ToInt(v.fc)); ok && constant.ToInt(v.fc).Kind() == constant.Int {
+		return x.floatLit(n, i)
+	}
+	if ty.k == kF64 {
+		f, _ := constant.Float64Val(v.fc)
+		return fmt.Sprintf("(Go.FExpr.var64 0x%016x#64 /- %s -/)", math.Float64bits(f), v.s)
+	}
+	f, _ := constant.Float32Val(v.fc)
+	return fmt.Sprintf("(Go.FExpr.var 0x%08x#32 /- %s -/)", math.Float32bits(f), v.s)
+}
+
+func isFloatTy(t *xty) bool { return t.k == kF32 || t.k == kF64 }
 
 // ---------------------------------------------------------------------------------------------
 // expressions of the extended subset
@@ -46,6 +78,12 @@ func (x *xtr) co(n ast.Node, v xval, ty *xty) string {
 			if v.c >= 0 && v.c < 256 {
 				return fmt.Sprintf("0x%x#8", v.c)
 			}
+		case kF32, kF64:
+			return x.floatLit(n, v.c)
+		}
+	case kFConst:
+		if isFloatTy(ty) {
+			return x.floatConst(n, v, ty)
 		}
 	case kMap:
 		if ty.k == kAny && v.ty.key.k == kStr && v.ty.elem.k == kAny {
@@ -101,9 +139,23 @@ func (x *xtr) expr(e ast.Expr) xval {
 				x.bad(e, "string literal")
 			}
 			return xval{ty: tStr, s: leanString(x, e, s)}
+		case token.FLOAT:
+			if x.sp.FloatSym {
+				if fc := constant.MakeFromLiteral(t.Value, token.FLOAT, 0); fc.Kind() != constant.Unknown {
+					return xval{ty: tFCon, fc: fc, s: t.Value}
+				}
+			}
 		}
 	case *ast.SelectorExpr:
 		if id, ok := t.X.(*ast.Ident); ok {
+			if _, isVar := x.env[id.Name]; !isVar && x.sp.FloatSym && id.Name == "math" && t.Sel.Name == "Pi" {
+				return xval{ty: tFCon, fc: constant.MakeFromLiteral(mathPiText, token.FLOAT, 0), s: "math.Pi"}
+			}
+			if _, isVar := x.env[id.Name]; !isVar && x.sp.FloatSym && id.Name == "math" && t.Sel.Name == "MaxFloat32" {
+				// 0x1p127 * (1 + (1 - 0x1p-23)) = 2^128 - 2^104
+				v := constant.BinaryOp(constant.Shift(constant.MakeInt64(1), token.SHL, 128), token.SUB, constant.Shift(constant.MakeInt64(1), token.SHL, 104))
+				return xval{ty: tFCon, fc: constant.ToFloat(v), s: "math.MaxFloat32"}
+			}
 			if _, isVar := x.env[id.Name]; !isVar {
 				if v, ok := x.consts[id.Name+"."+t.Sel.Name]; ok {
 					return v
@@ -127,7 +179,7 @@ func (x *xtr) expr(e ast.Expr) xval {
 			return xval{s: "!" + paren(x.co(e, v, tBoolx)), ty: tBoolx}
 		case token.AND:
 			// &v of a local variable that is assigned exactly once (its definition): the pointer is the value
-			if id, ok := t.X.(*ast.Ident); ok && v.ty.k == kOrd && x.assignedOnce(id.Name) {
+			if id, ok := t.X.(*ast.Ident); ok && (v.ty.k == kOrd || v.ty.k == kF32) && x.assignedOnce(id.Name) {
 				return xval{s: "some " + paren(v.s), ty: &xty{k: kOpt, elem: v.ty}}
 			}
 			x.bad(e, "address of something that is not a float32 variable assigned exactly once")
@@ -140,6 +192,12 @@ func (x *xtr) expr(e ast.Expr) xval {
 					return xval{s: "Go.wrap64 (-" + paren(v.s) + ")", ty: tInt}
 				}
 				return xval{s: "(-" + paren(v.s) + ")", ty: tInt}
+			}
+			if v.ty.k == kFConst {
+				return xval{ty: tFCon, fc: constant.UnaryOp(token.SUB, v.fc, 0), s: "-" + v.s}
+			}
+			if isFloatTy(v.ty) {
+				return xval{s: "Go.FExpr.neg " + paren(v.s), ty: v.ty}
 			}
 		}
 	case *ast.BinaryExpr:
@@ -286,9 +344,9 @@ func (x *xtr) binary(t *ast.BinaryExpr) xval {
 			}
 			return xval{s: "!List.isEmpty " + paren(o.s), ty: tBoolx}
 		}
-		if o.ty.k == kAny || o.ty.k == kErrOpt {
-			// an interface value / a named error result compared with nil
-			fn := map[xkind]string{kAny: "Go.Any.isNil ", kErrOpt: "Option.isNone "}[o.ty.k]
+		if o.ty.k == kAny || o.ty.k == kErrOpt || o.ty.k == kOpt {
+			// an interface value / a named error result / a pointer to a scalar compared with nil
+			fn := map[xkind]string{kAny: "Go.Any.isNil ", kErrOpt: "Option.isNone ", kOpt: "Option.isNone "}[o.ty.k]
 			if o.ty.k == kAny {
 				x.usesRtX = true
 			}
@@ -300,8 +358,33 @@ func (x *xtr) binary(t *ast.BinaryExpr) xval {
 		x.bad(t, "comparison of %s with nil (an error is tested only right after the call that returned it)", o.ty.lean())
 	}
 	ty := a.ty
-	if ty.k == kConst {
+	if ty.k == kConst || ty.k == kFConst && b.ty.k != kConst {
 		ty = b.ty
+	}
+	if ty.k == kFConst {
+		// untyped constant arithmetic is exact (go/constant), as in the compiler
+		fv := func(v xval) constant.Value {
+			if v.ty.k == kConst {
+				return constant.ToFloat(constant.MakeInt64(v.c))
+			}
+			return v.fc
+		}
+		switch t.Op {
+		case token.ADD, token.SUB, token.MUL, token.QUO:
+			r := constant.BinaryOp(fv(a), t.Op, fv(b))
+			if r.Kind() != constant.Unknown {
+				return xval{ty: tFCon, fc: r, s: a.s + " " + t.Op.String() + " " + b.s}
+			}
+		}
+		x.bad(t, "constant operation %s", t.Op)
+	}
+	if isFloatTy(ty) {
+		// float arithmetic stays symbolic: one constructor per Go operation, operands in source order
+		fn, ok := map[token.Token]string{token.ADD: "add", token.SUB: "sub", token.MUL: "mul", token.QUO: "div"}[t.Op]
+		if !ok {
+			x.bad(t, "%s on floats (the symbolic float type has arithmetic only)", t.Op)
+		}
+		return xval{s: fmt.Sprintf("Go.FExpr.%s %s %s", fn, paren(x.co(t.X, a, ty)), paren(x.co(t.Y, b, ty))), ty: ty}
 	}
 	if ty.k == kConst {
 		var r int64
@@ -543,6 +626,12 @@ func (x *xtr) call(c *ast.CallExpr) xval {
 			return xval{s: x.applyFn(c, m.lean+" "+paren(rv.s), m.ft), ty: m.ft.results[0]}
 		}
 	}
+	if fn, ft, ok := x.knownMethod(c); ok {
+		if len(ft.results) != 1 {
+			x.bad(c, "call of the method %s with %d results inside an expression", name, len(ft.results))
+		}
+		return xval{s: x.applyFn(c, fn, ft), ty: ft.results[0]}
+	}
 	if u, ok := x.uses[name]; ok {
 		te, err := parser.ParseExpr(u.Sig)
 		if err != nil {
@@ -604,6 +693,39 @@ func (x *xtr) call(c *ast.CallExpr) xval {
 		}
 		if a.ty.k == kU64 {
 			return xval{s: "BitVec.toInt " + paren(a.s), ty: tInt} // Go reinterprets the 64 bits: exact
+		}
+		if a.ty.k == kByte {
+			return xval{s: "(BitVec.toNat " + paren(a.s) + " : Int)", ty: tInt} // uint8 → int: exact
+		}
+	case "float32", "float64":
+		if x.sp.FloatSym {
+			need(1)
+			a := x.expr(c.Args[0])
+			to := map[string]*xty{"float32": tF32, "float64": tF64}[name]
+			switch a.ty.k {
+			case kConst, kFConst:
+				return xval{s: x.co(c, a, to), ty: to}
+			case kInt:
+				return xval{s: "Go.FExpr.ofInt " + paren(a.s), ty: to}
+			case kU64:
+				return xval{s: "Go.FExpr.ofNat (BitVec.toNat " + paren(a.s) + ")", ty: to}
+			case kF32, kF64:
+				if a.ty.k == to.k {
+					return xval{s: a.s, ty: to}
+				}
+				return xval{s: map[xkind]string{kF32: "Go.FExpr.toF32 ", kF64: "Go.FExpr.toF64 "}[to.k] + paren(a.s), ty: to}
+			}
+		}
+	case "math.Log10", "math.Sqrt", "math.Sin", "math.Cos", "math.Asin":
+		if x.sp.FloatSym {
+			need(1)
+			fn := map[string]string{"math.Log10": "log10", "math.Sqrt": "sqrt", "math.Sin": "sin", "math.Cos": "cos", "math.Asin": "asin"}[name]
+			return xval{s: "Go.FExpr." + fn + " " + paren(x.co(c.Args[0], x.expr(c.Args[0]), tF64)), ty: tF64}
+		}
+	case "math.Min":
+		if x.sp.FloatSym {
+			need(2)
+			return xval{s: fmt.Sprintf("Go.FExpr.min %s %s", paren(x.co(c.Args[0], x.expr(c.Args[0]), tF64)), paren(x.co(c.Args[1], x.expr(c.Args[1]), tF64))), ty: tF64}
 		}
 	case "uint64":
 		need(1)
@@ -693,6 +815,28 @@ func (x *xtr) call(c *ast.CallExpr) xval {
 	}
 	x.bad(c, "call %s", name)
 	return xval{}
+}
+
+// `v.M(..)` where v is a struct value and M a method of its type translated earlier into this module: the Lean
+// function (already applied to the receiver) and its type
+func (x *xtr) knownMethod(c *ast.CallExpr) (string, *xty, bool) {
+	se, ok := c.Fun.(*ast.SelectorExpr)
+	if !ok {
+		return "", nil, false
+	}
+	base := lvalueBase(se.X)
+	if base == "" || x.env[base] == nil {
+		return "", nil, false
+	}
+	rv := x.expr(se.X)
+	if rv.ty.k != kStruct {
+		return "", nil, false
+	}
+	ft, ok := x.known[rv.ty.name+"."+se.Sel.Name]
+	if !ok {
+		return "", nil, false
+	}
+	return rv.ty.name + "_" + se.Sel.Name + " " + paren(rv.s), ft, true
 }
 
 // is the variable assigned exactly once in the whole function body (so that &v can stand for its value)?
